@@ -1,6 +1,1 @@
 package main
-
-
-func ruleC19Helpers(w *World, r *Report) {}
-func ruleC17R2(w *World, r *Report)      {}
-
